@@ -81,7 +81,7 @@ func (e *Engine) Discharge(o *Obligation, dir string, idx int, timeoutS int, see
 		return
 	}
 	c := o.Ctx
-	hyps := relevantFacts(c.facts[:o.NFacts], c.triggers[:o.NFacts], o.Goal)
+	hyps := relevantFacts(c, o.NFacts, o.Goal)
 	var gv []*Term
 	for _, in := range c.inputs {
 		gv = append(gv, in)
@@ -158,14 +158,19 @@ func firstLines(s string, n int) string {
 }
 
 // relevantFacts keeps untriggered facts and those triggered facts whose trigger term occurs in the goal or in a kept fact.
-func relevantFacts(facts, trigs []*Term, goal *Term) []*Term {
+func relevantFacts(c *FnCtx, n int, goal *Term) []*Term {
+	facts, trigs := c.facts[:n], c.triggers[:n]
 	reach := map[int]bool{}
+	nthOf := map[int]bool{} // sequences some element of which is mentioned
 	var mark func(t *Term)
 	mark = func(t *Term) {
 		if reach[t.id] {
 			return
 		}
 		reach[t.id] = true
+		if t.kind == kApp && t.op == "seq.nth" {
+			nthOf[t.args[0].id] = true
+		}
 		for _, a := range t.args {
 			mark(a)
 		}
@@ -181,7 +186,14 @@ func relevantFacts(facts, trigs []*Term, goal *Term) []*Term {
 	for changed := true; changed; {
 		changed = false
 		for i, f := range facts {
-			if !keep[i] && reach[trigs[i].id] {
+			if keep[i] {
+				continue
+			}
+			ok := reach[trigs[i].id]
+			if c.trigNth[i] {
+				ok = nthOf[trigs[i].id]
+			}
+			if ok {
 				keep[i] = true
 				mark(f)
 				changed = true
